@@ -371,35 +371,245 @@ def search_other_periods(impl, rng, count, stats):
 
 
 # ---------------------------------------------------------------------------------------------
-def search_pipeline(impl, rng, count, stats):
-    """pipelines.py: a sight line whose pixel samples are all the same ray must give, as its ray-transfer matrix, the
-    spectrum of that one ray (mean over the samples; 'power' additionally multiplied by the sensitivity)."""
-    from raysect.optical import World, Ray, Point3D, Vector3D, translate, rotate_y
-    from raysect.optical.observer import SightLine
-    from raysect.core.workflow import SerialEngine
-    from cherab.tools.raytransfer import RayTransferBox, RayTransferPipeline0D
+# pipelines.py
+# ---------------------------------------------------------------------------------------------
+PIPE_KINDS = ("power", "radiance")
+
+
+def drive_pipeline_api(dim, hist):
+    """Drives a real RayTransferPipeline{0,1,2}D object through a history of observations by calling the methods a raysect
+    observer calls (initialise / pixel_processor / add_sample / pack_results / update / finalise), the SAME object for the
+    whole history.  hist = list of observations:
+       0D: {"kind", "bins", "tasks": [[(samples, sensitivity), ...], ...]}
+       1D/2D: {"kind", "bins", "pixels": n | (nx, ny), "pixel_samples", "tasks": [(pixel, [(samples, sensitivity), ...]), ...]}
+    Returns the matrix after every observation (numpy arrays)."""
+    from raysect.optical import Spectrum
+    from cherab.tools.raytransfer import RayTransferPipeline0D, RayTransferPipeline1D, RayTransferPipeline2D
+    pipe = {0: RayTransferPipeline0D, 1: RayTransferPipeline1D, 2: RayTransferPipeline2D}[dim](kind=hist[0]["kind"])
+    outs = []
+
+    def spec(vals, bins):
+        sp = Spectrum(500., 501., bins)
+        sp.samples[:] = vals
+        return sp
+    for ob in hist:
+        pipe.kind = ob["kind"]
+        bins = ob["bins"]
+        if dim == 0:
+            pipe.initialise(500., 501., bins, [None], True)
+            for task in ob["tasks"]:
+                pp = pipe.pixel_processor(0)
+                for vals, sens in task:
+                    pp.add_sample(spec(vals, bins), sens)
+                pipe.update(0, pp.pack_results(), len(task))
+            pipe.finalise()
+        else:
+            pipe.initialise(ob["pixels"], ob["pixel_samples"], 500., 501., bins, [None], True)
+            for pix, task in ob["tasks"]:
+                pp = pipe.pixel_processor(pix, 0) if dim == 1 else pipe.pixel_processor(pix[0], pix[1], 0)
+                for vals, sens in task:
+                    pp.add_sample(spec(vals, bins), sens)
+                if dim == 1:
+                    pipe.update(pix, 0, pp.pack_results())
+                else:
+                    pipe.update(pix[0], pix[1], 0, pp.pack_results())
+            pipe.finalise()
+        outs.append(np.array(pipe.matrix, dtype=float).copy())
+    return outs
+
+
+def gen_pipeline_history(rng, dim):
+    hist = []
+    for _ in range(rng.randint(2, 4)):
+        bins = rng.randint(1, 5)
+        kind = rng.choice(PIPE_KINDS)
+
+        def smp():
+            return ([rng.randint(0, 64) / 16.0 if rng.random() < 0.7 else 0.0 for _ in range(bins)],
+                    rng.choice([1.0, 1.0, 0.5, 2.5, 3.0]))
+        if dim == 0:
+            tasks = [[smp() for _ in range(rng.randint(1, 3))] for _ in range(rng.randint(1, 3))]
+            hist.append({"kind": kind, "bins": bins, "tasks": tasks})
+        else:
+            ps = rng.randint(1, 3)
+            if dim == 1:
+                pixels = rng.randint(1, 3)
+                keys = list(range(pixels))
+            else:
+                pixels = (rng.randint(1, 2), rng.randint(1, 3))
+                keys = [(x, y) for x in range(pixels[0]) for y in range(pixels[1])]
+            rng.shuffle(keys)
+            if len(keys) > 1 and rng.random() < 0.3:
+                keys = keys[:-1]          # a pixel the observer did not render keeps its zeros
+            hist.append({"kind": kind, "bins": bins, "pixels": pixels, "pixel_samples": ps,
+                         "tasks": [(k, [smp() for _ in range(ps)]) for k in keys]})
+    return hist
+
+
+def expected_pipeline_matrix(dim, ob):
+    """the documented content: mean over the observation's samples of samples [* sensitivity for 'power'] (exact)"""
+    bins = ob["bins"]
+
+    def mean(task, n):
+        tot = [Fraction(0)] * bins
+        for vals, sens in task:
+            w = Fraction(sens) if ob["kind"] == "power" else Fraction(1)
+            for j in range(bins):
+                tot[j] += Fraction(vals[j]) * w
+        return [float(t / n) for t in tot]
+    if dim == 0:
+        allsm = [sm for task in ob["tasks"] for sm in task]
+        return np.array(mean(allsm, len(allsm)))
+    shape = (ob["pixels"], bins) if dim == 1 else (ob["pixels"][0], ob["pixels"][1], bins)
+    m = np.zeros(shape)
+    for pix, task in ob["tasks"]:
+        m[pix] = mean(task, ob["pixel_samples"])
+    return m
+
+
+def search_pipeline_api(histories, stats):
+    """executable statement on the implementation: every observation's matrix is the mean of ITS samples"""
     fails = []
-    for _ in range(count):
+    for dim, hist, outs in histories:
+        for oi, (ob, out) in enumerate(zip(hist, outs)):
+            want = expected_pipeline_matrix(dim, ob)
+            stats["pipeline_api_observations"] = stats.get("pipeline_api_observations", 0) + 1
+            if out.shape != want.shape or not np.allclose(out, want, rtol=1e-12, atol=0):
+                fails.append({"claim": "RayTransferPipeline%dD: the matrix of every observation is the mean of that observation's samples "
+                                       "(times the sensitivity for kind='power'), whatever the pipeline object was used for before" % dim,
+                              "observation_index": oi, "history": hist, "matrix": out.tolist(), "expected": want.tolist()})
+                break
+    return fails
+
+
+def _grid_of(obj, kind, g):
+    """grid description (as used by search_traced) of a live RayTransferBox / RayTransferCylinder"""
+    g = dict(g)
+    g["vm"] = [int(v) for v in np.asarray(obj.voxel_map).ravel()]
+    g["bins"] = int(obj.bins)
+    if kind == "cyl":
+        g["dr"], g["dz"] = obj.material.dr, obj.material.dz
+    return {k: v for k, v in g.items() if not k.startswith("_") and k not in ("cases", "traces")}
+
+
+def search_pipeline_histories(impl, rng, count, stats, gen_grid):
+    """Real observers (SightLine -> 0D, MeshCamera -> 1D, PinholeCamera -> 2D) observe a ray-transfer object several times with
+    the SAME pipeline objects while the scene and the observer change between the calls (sight line moved, mask / voxel map /
+    step changed, pixel_samples, sensitivity and kind changed).  Every observation is compared with (a) a fresh pipeline
+    object that sees the same rays in the same observe() call (must be identical), (b) for the sight line: the spectrum of
+    the single ray it fires (times the sensitivity for 'power') and the exact chord in the active cells."""
+    from raysect.core import SerialEngine
+    from raysect.optical import World, Ray, Point3D, Vector3D, translate, rotate_basis
+    from raysect.optical.observer import SightLine, MeshCamera, PinholeCamera
+    from raysect.primitive.mesh import Mesh
+    from cherab.tools.raytransfer import (RayTransferBox, RayTransferCylinder, RayTransferPipeline0D, RayTransferPipeline1D,
+                                          RayTransferPipeline2D)
+    fails = []
+    for hi in range(count):
+        kind = "cart" if hi % 2 == 0 else "cyl"
+        g = gen_grid(rng, kind, True, False)
         world = World()
-        nx, ny, nz = rng.randint(1, 4), rng.randint(1, 3), rng.randint(1, 3)
-        rtb = RayTransferBox(2.0, 1.0, 1.0, nx, ny, nz, parent=world)
-        y0, z0 = rng.uniform(0.05, 0.95), rng.uniform(0.05, 0.95)
-        kind = rng.choice(["radiance", "power"])
-        sens = rng.choice([1.0, 2.5])
-        pipe = RayTransferPipeline0D(kind=kind)
-        sl = SightLine(pipelines=[pipe], parent=world, transform=translate(-1.0, y0, z0) * rotate_y(90))
-        sl.min_wavelength, sl.max_wavelength, sl.spectral_bins = 500., 501., rtb.bins
-        sl.pixel_samples = rng.choice([1, 3, 8])
-        sl.sensitivity = sens
-        sl.quiet = True
-        sl.render_engine = SerialEngine()
-        sl.observe()
-        ray = Ray(origin=Point3D(-1.0, y0, z0), direction=Vector3D(1, 0, 0), min_wavelength=500., max_wavelength=501., bins=rtb.bins)
-        ref = np.array(ray.trace(world).samples) * (sens if kind == "power" else 1.0)
-        stats["pipeline"] = stats.get("pipeline", 0) + 1
-        if pipe.matrix.shape != ref.shape or np.abs(pipe.matrix - ref).max() > 1e-9:
-            fails.append({"claim": "the ray-transfer pipeline returns the mean of the per-ray entries (times the sensitivity for kind='power')",
-                          "grid": [nx, ny, nz], "origin": [-1.0, y0, z0], "kind": kind, "sensitivity": sens,
-                          "pixel_samples": sl.pixel_samples, "matrix": [float(v) for v in pipe.matrix], "single_ray": [float(v) for v in ref]})
-            break
+        if kind == "cart":
+            size = max(g["ext"])
+            obj = RayTransferBox(g["ext"][0], g["ext"][1], g["ext"][2], g["shape"][0], g["shape"][1], g["shape"][2], parent=world)
+            centre = [e / 2 for e in g["ext"]]
+        else:
+            size = 2 * g["rmax"] + g["zmax"]
+            obj = RayTransferCylinder(g["rmax"], g["zmax"], g["shape"][0], g["shape"][2], radius_inner=g["rmin"],
+                                      n_polar=g["nphi"], period=float(g["period"]), parent=world)
+            centre = [0.0, 0.0, g["zmax"] / 2]
+        cellmin = min(g["steps"]) if kind == "cart" else min(g["dr"], g["dz"])
+        obj.step = max(0.15 * cellmin, size / 150.0)
+        ncells = g["shape"][0] * g["shape"][1] * g["shape"][2]
+        reused = {0: RayTransferPipeline0D(kind="radiance"), 1: RayTransferPipeline1D(kind="radiance"),
+                  2: RayTransferPipeline2D(kind="radiance")}
+        fresh_cls = {0: RayTransferPipeline0D, 1: RayTransferPipeline1D, 2: RayTransferPipeline2D}
+        # observers: a sight line, a two-triangle mesh camera and a 3x2 pinhole camera, all outside the object
+        off = size * 1.5
+        v = [[centre[0] - off, centre[1] - 0.2 * size, centre[2] - 0.2 * size], [centre[0] - off, centre[1] + 0.2 * size, centre[2] - 0.2 * size],
+             [centre[0] - off, centre[1], centre[2] + 0.2 * size], [centre[0] - off, centre[1] + 0.3 * size, centre[2] + 0.25 * size]]
+        mesh = Mesh(vertices=v, triangles=[[0, 1, 2], [1, 3, 2]], smoothing=False)
+        state = {"pixel_samples": 1, "sens": 1.0, "kind": "radiance"}
+        log = []
+        org = Point3D(centre[0] - off, centre[1] + 0.1 * size, centre[2] + 0.05 * size)
+        tgt = Point3D(*centre)
+        for oi in range(rng.randint(3, 4)):
+            # ---- change something between the observations ----
+            if oi > 0:
+                for what in rng.sample(["move", "mask", "voxel_map", "step", "pixel_samples", "kind", "sensitivity"], rng.randint(1, 3)):
+                    if what == "move":
+                        d = [rng.gauss(0, 1) for _ in range(3)]
+                        nd = math.sqrt(sum(x * x for x in d))
+                        org = Point3D(*[centre[i] + d[i] / nd * off for i in range(3)])
+                        tgt = Point3D(*[centre[i] + rng.uniform(-0.2, 0.2) * size * 0.5 for i in range(3)])
+                    elif what == "mask":
+                        m = [rng.random() < 0.7 for _ in range(ncells)]
+                        m[rng.randrange(ncells)] = True
+                        obj.mask = np.array(m, dtype=bool).reshape(g["shape"])
+                    elif what == "voxel_map":
+                        B = rng.randint(1, max(1, ncells // 2))
+                        vm = [rng.randint(-1, B - 1) for _ in range(ncells)]
+                        vm[rng.randrange(ncells)] = B - 1
+                        obj.voxel_map = np.array(vm, dtype=np.int32).reshape(g["shape"])
+                    elif what == "step":
+                        obj.step = max(rng.uniform(0.1, 0.5) * cellmin, size / 150.0)
+                    elif what == "pixel_samples":
+                        state["pixel_samples"] = rng.choice([1, 2, 3, 5])
+                    elif what == "kind":
+                        state["kind"] = rng.choice(PIPE_KINDS)
+                    else:
+                        state["sens"] = rng.choice([1.0, 0.5, 2.5])
+                    log.append((oi, what))
+            direction = org.vector_to(tgt).normalise()
+            gnow = _grid_of(obj, kind, g)
+            for dim in (0, 1, 2):
+                reused[dim].kind = state["kind"]
+                fresh = fresh_cls[dim](kind=state["kind"])
+                if dim == 0:
+                    ob = SightLine(pipelines=[reused[dim], fresh], parent=world,
+                                   transform=translate(org.x, org.y, org.z) * rotate_basis(direction, direction.orthogonal()))
+                    ob.sensitivity = state["sens"]
+                elif dim == 1:
+                    ob = MeshCamera(mesh, surface_offset=1e-6, pipelines=[reused[dim], fresh], parent=world)
+                else:
+                    ob = PinholeCamera((3, 2), pipelines=[reused[dim], fresh], parent=world,
+                                       transform=translate(org.x, org.y, org.z) * rotate_basis(direction, direction.orthogonal()))
+                    ob.fov = 30
+                ob.min_wavelength, ob.max_wavelength, ob.spectral_bins = 500., 501., obj.bins
+                ob.pixel_samples = state["pixel_samples"]
+                ob.quiet = True
+                ob.render_engine = SerialEngine()
+                ob.observe()
+                ob.parent = None
+                stats["pipeline_observations"] = stats.get("pipeline_observations", 0) + 1
+                a, b = np.array(reused[dim].matrix, dtype=float), np.array(fresh.matrix, dtype=float)
+                info = {"grid": gnow, "observer": ["SightLine", "MeshCamera", "PinholeCamera"][dim], "observation_index": oi,
+                        "changes_before": [w for k, w in log if k == oi], "all_changes": log, "state": dict(state),
+                        "origin": [org.x, org.y, org.z], "target": [tgt.x, tgt.y, tgt.z], "step": obj.step}
+                if a.shape != b.shape or not np.array_equal(a, b):
+                    fails.append(dict(info, claim="RayTransferPipeline%dD: a pipeline object that was used for earlier observations gives the same "
+                                                  "matrix as a fresh pipeline object watching the same rays" % dim,
+                                      reused_matrix_sum=float(a.sum()), fresh_matrix_sum=float(b.sum()),
+                                      reused_matrix=a.tolist() if a.size <= 64 else None, fresh_matrix=b.tolist() if b.size <= 64 else None))
+                    continue
+                if dim == 0:
+                    ray = Ray(origin=org, direction=direction, min_wavelength=500., max_wavelength=501., bins=obj.bins)
+                    single = np.array(ray.trace(world).samples)
+                    ref = single * (state["sens"] if state["kind"] == "power" else 1.0)
+                    if np.abs(a - ref).max() > 1e-9 * max(1.0, np.abs(ref).max()):
+                        fails.append(dict(info, claim="RayTransferPipeline0D on a sight line: the matrix is the spectrum of the ray it fires "
+                                                      "(mean over identical samples, times the sensitivity for kind='power')",
+                                          matrix=a.tolist(), single_ray=ref.tolist()))
+                        continue
+                    # the entries against the exact chord in the active cells (geometry only)
+                    w = state["sens"] if state["kind"] == "power" else 1.0
+                    tr = {"origin_local": [org.x, org.y, org.z], "dir_local": [direction.x, direction.y, direction.z],
+                          "result": [float(x) / w for x in a], "last_out": [float(x) / w for x in a], "step": obj.step}
+                    gchk = dict(gnow, traces=[tr])
+                    if kind == "cart":
+                        gchk["ext"] = g["ext"]
+                    for f in search_traced(impl, gchk, stats):
+                        fails.append(dict(info, claim="pipeline matrix of a sight line: " + f["claim"], detail={k: v for k, v in f.items() if k in ("sum", "chord_in_active_cells", "tolerance")}))
+            if len(fails) > 3:
+                return fails
     return fails
